@@ -20,7 +20,9 @@ RULE = ('generated (class model, document) pairs x meaning-preserving transforma
         'the real load must not change.  Non-trivial = the transformed input differs from the original.'
         ' Directed families: !Unrelated tags on class mappings; Unions containing bool as item /'
         ' value types of (nested, Optional) lists and dicts; documents with aliases re-rendered'
-        ' with every alias written out.')
+        ' with every alias written out; class mappings naming an attribute in both its underscored and'
+        ' its dashed spelling (key order, twice per case; for classes with extra attributes the attribute'
+        ' is also moved to the other side of its dashed twin).')
 ASSUMPTIONS = ['PyYAML\'s serializer/emitter writes a node tree so that it re-composes to the same kinds, '
                'values and tags (checked per case; cases where it does not are skipped and counted)']
 
@@ -251,14 +253,115 @@ def boolfix_cases(ctx, n):
         yield c
 
 
+def class_maps_with_class(spec, doc, t, path=()):
+    """(path, declared class) of the mappings read as plain classes when doc is loaded as t (as
+    c17.class_map_paths, which it follows, but keeping the class)"""
+    by = {c['name']: c for c in spec}
+    out = []
+    if t is None:
+        return out
+    k = t[0]
+    if k == 'union':
+        fits = [m for m in t[1] if (m[0] == 'cls' and doc[0] == 'm') or (m[0] == 'seq' and doc[0] == 'q') or
+                (m[0] == 'map' and doc[0] == 'm')]
+        return class_maps_with_class(spec, doc, fits[0], path) if len(fits) == 1 else out
+    if k == 'cls' and doc[0] == 'm' and by[t[1]]['kind'] == 'plain':
+        out.append((path, t[1]))
+        ptypes = {p['name']: p.get('type') for p in by[t[1]]['params']}
+        for i, (kk, v) in enumerate(doc[1]):
+            if kk[0] == 's':
+                out += class_maps_with_class(spec, v, ptypes.get(kk[1].replace('-', '_')), path + (i, 1))
+    elif k == 'seq' and doc[0] == 'q':
+        for i, x in enumerate(doc[1]):
+            out += class_maps_with_class(spec, x, t[2], path + (i,))
+    elif k == 'map' and doc[0] == 'm':
+        for i, (kk, v) in enumerate(doc[1]):
+            out += class_maps_with_class(spec, v, t[3], path + (i, 1))
+    return out
+
+
+def twin_cases(ctx, n):
+    """class mappings that take extra attributes and name an underscored attribute twice: under its exact
+    name (the attribute) and under its dashed spelling with a value of another kind (an extra attribute).
+    Only cases that load are kept.  `c.twin` = (path of the mapping, exact key, dashed key)."""
+    yaml, yatiml = L.setup()
+    rng = ctx.rng
+    S = G.S
+    made = attempts = 0
+    while made < n and attempts < n * 60:
+        attempts += 1
+        spec, cands = G.gen_model(rng)
+        if not any(c.get('extra') and any('_' in p['name'] for p in c.get('params', [])) for c in spec):
+            continue
+        try:
+            t = rng.choice(cands)
+            doc = G.gen_doc(rng, spec, t)
+            by = {c['name']: c for c in spec}
+            maps = [(p, {a['name'] for a in by[cn].get('params', [])})
+                    for p, cn in class_maps_with_class(spec, doc, t)]
+        except Exception:  # noqa
+            continue
+        rng.shuffle(maps)
+        for q, pnames in maps[:3]:
+            m = G.get_at_path(doc, q)
+            pairs = list(m[1])
+            # attributes of the declared class (every class the mapping can be loaded as has them)
+            und = [i for i, (k, v) in enumerate(pairs)
+                   if k[0] == 's' and '_' in k[1].strip('_') and k[1] in pnames]
+            if not und:
+                continue
+            i = rng.choice(und)
+            k = pairs[i][0]
+            dk = S(k[1].replace('_', '-'))
+            if dk[1] == k[1] or any(kk[0] == 's' and kk[1] == dk[1] for kk, _ in pairs):
+                continue
+            wrong = rng.choice([S('true'), S('1'), S('zzz'), S('1.5'), S('~'), ('q', [S('a')], None),
+                                ('m', [(S('v'), S('1'))], None), ('q', [], None)])
+            pairs.insert(rng.randint(0, len(pairs)), (dk, wrong))
+            doc2 = G.replace_at(doc, q, lambda d: ('m', pairs, m[2]))
+            try:
+                c = L.build_case(rng, yaml, yatiml, spec, t, doc2, ('dashed-twin', q))
+                L.run_case(c, yaml)
+            except Exception as e:  # noqa
+                ctx.count('gen_error:' + type(e).__name__)
+                continue
+            if c.real_out[0] != 'ok':
+                ctx.count('dashed_twin_probe_' + c.real_out[0])
+                continue
+            c.twin = (q, k[1], dk[1])
+            made += 1
+            ctx.count('dashed_twin_directed')
+            yield c
+            break
+
+
+def flip_twin(doc, twin):
+    """move the attribute to the other side of its dashed twin (only a parameter of the class moves; the
+    extra attributes keep their order)"""
+    q, name, dashed = twin
+    m = G.get_at_path(doc, q)
+    pairs = list(m[1])
+    i = [j for j, (k, v) in enumerate(pairs) if k[0] == 's' and k[1] == name][0]
+    attr = pairs.pop(i)
+    j = [j for j, (k, v) in enumerate(pairs) if k[0] == 's' and k[1] == dashed][0]
+    pairs.insert(j if i > j else j + 1, attr)
+    return G.replace_at(doc, q, lambda d: ('m', pairs, m[2]))
+
+
 def explore(ctx):
     yaml, yatiml = L.setup()
     rng = ctx.rng
     cases = LC.CaseBuffer(ctx)
     import itertools
     for c in itertools.chain(LC.gen_cases(ctx, ctx.budget(600, 9000), mutate_p=0.3, prop='C13'),
-                             boolfix_cases(ctx, ctx.budget(80, 1500))):
-        if c.doc is not None and rng.random() < 0.3 and not (c.desc and c.desc[0] == 'boolfix-directed'):
+                             boolfix_cases(ctx, ctx.budget(80, 1500)),
+                             LC.class_key_faults(ctx, ctx.budget(80, 1500)),
+                             twin_cases(ctx, ctx.budget(60, 1200))):
+        keyfault = bool(c.desc and c.desc[0] in ('class-key-fault', 'dashed-twin'))
+        if keyfault:
+            ctx.count('key_fault_directed')
+        if c.doc is not None and rng.random() < 0.3 and not keyfault \
+                and not (c.desc and c.desc[0] == 'boolfix-directed'):
             # application tags on scalars (they are stripped under Any / untyped / extra positions)
             doc = c.doc
             nested_only = rng.random() < 0.4
@@ -323,6 +426,12 @@ def explore(ctx):
             which.append('unrelated')
         if c.desc and c.desc[0] == 'boolfix-directed':
             which = ['boolfix', 'kinds', 'style']
+        if keyfault:
+            # an attribute in both spellings (the exact one is the attribute, the dashed one an extra
+            # attribute): which of the two comes first must not matter
+            which = ['keys', 'keys', 'style']
+            if c.desc[0] == 'dashed-twin':
+                which = ['twinflip', 'keys', 'style']
         for tr in which:
             text2, spec2, t2 = c.text, c.spec, c.doc_type
             extra_cls = []
@@ -330,6 +439,9 @@ def explore(ctx):
                 if c.doc is None or getattr(c, 'shared', False) or '*' in c.text or '&' in c.text:
                     continue        # reordering could put an alias before its anchor
                 text2 = G.render(shuffle_class_maps(rng, c.spec, c.doc, c.doc_type))
+            elif tr == 'twinflip':
+                text2 = G.render(flip_twin(c.doc, c.twin))
+                tr = 'keys'
             elif tr == 'style':
                 if c.node is None or getattr(c, 'empty', False):
                     continue
